@@ -193,7 +193,7 @@ def run(ck, w):
         ck.fail(o, pb.name, "no BandId::previous", "search loop does not step")
     o = ck.ob("C08.4c", "Stitch::next: every cycle through the state dispatch consumes an entry, a hunk, or moves to a strictly earlier band")
     # cycles: arm regions that come back to the dispatch. Each must contain a consuming event.
-    consume = re.compile(r"Peekable<I> as std::iter::Iterator>::next$|index::IndexHunkIter::next|previous_existing_band|band::Band::open|band_is_closed")
+    consume = re.compile(r"Peekable<I> as std::iter::Iterator>::next$|index::IndexHunkIter::(try_)?next|previous_existing_band|band::Band::open|band_is_closed")
     bad = []
     for vi, name in enumerate(vn):
         tgt = arms.get(vi)
@@ -252,13 +252,13 @@ def run(ck, w):
                 ck.fail(o, sn.name, "advanced iterator not the one installed", "index_hunks from %s" % flow.origin_summary(io))
     o = ck.ob("C08.5b", "InBand: last_apath is updated from the last entry of every hunk that is installed")
     assigns = [(bb, s) for bb, j, s in sn.all_assigns() if s["pl"]["p"] and s["pl"]["p"][-1].startswith("f:") and s["pl"]["p"][-1].split(":", 2)[2] == "last_apath"]
-    hn = events_of(lib, sn, "index::IndexHunkIter::next")
+    hn = events_of(lib, sn, "index::IndexHunkIter::next") + events_of(lib, sn, "index::IndexHunkIter::try_next")
     if not assigns or not hn:
         ck.fail(o, sn.name, "last_apath never updated", "no assignment to self.last_apath")
     else:
         src = flow.origins_x(lib, sn, assigns[0][1]["rv"]["ops"][0], through_calls=[r"Option::<T>::map$", r"<impl \[T\]>::last$"])
         via = {x[1] for x in src if x[0] == "via"}
-        if "index::IndexHunkIter::next" in flow.origin_calls(src) and any(v.endswith("::last") for v in via):
+        if flow.origin_calls(src) & {"index::IndexHunkIter::next", "index::IndexHunkIter::try_next"} and any(v.endswith("::last") for v in via):
             # the install of buffered_entries must come after
             ck.ok(o, sites=["%s:%d" % (sn.file, assigns[0][1]["line"])])
         else:
